@@ -32,7 +32,7 @@ def main():
         finally:
             sh('git -C /repo checkout -- .'); sh('git -C /repo clean -fdq src')
         out = os.path.join(V, 'harmless', name); os.makedirs(out, exist_ok=True)
-        shutil.copy(os.path.join(d, 'patch.diff'), os.path.join(out, 'patch.diff'))
+        if os.path.abspath(d) != os.path.abspath(out): shutil.copy(os.path.join(d, 'patch.diff'), os.path.join(out, 'patch.diff'))
         meta = json.load(open(os.path.join(d, 'meta.json'))); meta['verification'] = res
         json.dump(meta, open(os.path.join(out, 'meta.json'), 'w'), indent=1)
         alarms = [c for c, r in res['checks'].items() if r['exit'] != 0]
